@@ -912,6 +912,15 @@ func setAndReturnBodyLimitInterruption(tx *Transaction, status int) (*types.Inte
 	return tx.interruption, 0, nil
 }
 
+// remainingBodyBytes returns how many more bytes fit below limit. It is never negative:
+// ctl:requestBodyLimit / ctl:responseBodyLimit may lower the limit below what is already buffered.
+func remainingBodyBytes(limit, buffered int64) int64 {
+	if limit <= buffered {
+		return 0
+	}
+	return limit - buffered
+}
+
 // WriteRequestBody writes bytes from a slice of bytes into the request body,
 // it returns an interruption if the writing bytes go beyond the request body limit.
 // It won't copy the bytes if the body access isn't accessible.
@@ -955,7 +964,7 @@ func (tx *Transaction) WriteRequestBody(b []byte) (*types.Interruption, int, err
 		}
 
 		if tx.WAF.RequestBodyLimitAction == types.BodyLimitActionProcessPartial {
-			writingBytes = tx.RequestBodyLimit - tx.requestBodyBuffer.length
+			writingBytes = remainingBodyBytes(tx.RequestBodyLimit, tx.requestBodyBuffer.length)
 			runProcessRequestBody = true
 		}
 	}
@@ -1020,12 +1029,12 @@ func (tx *Transaction) ReadRequestBodyFrom(r io.Reader) (*types.Interruption, in
 			}
 
 			if tx.WAF.RequestBodyLimitAction == types.BodyLimitActionProcessPartial {
-				writingBytes = tx.RequestBodyLimit - tx.requestBodyBuffer.length
+				writingBytes = remainingBodyBytes(tx.RequestBodyLimit, tx.requestBodyBuffer.length)
 				runProcessRequestBody = true
 			}
 		}
 	} else {
-		writingBytes = tx.RequestBodyLimit - tx.requestBodyBuffer.length
+		writingBytes = remainingBodyBytes(tx.RequestBodyLimit, tx.requestBodyBuffer.length)
 	}
 
 	w, err := io.CopyN(tx.requestBodyBuffer, r, writingBytes)
@@ -1225,7 +1234,7 @@ func (tx *Transaction) WriteResponseBody(b []byte) (*types.Interruption, int, er
 		}
 
 		if tx.WAF.ResponseBodyLimitAction == types.BodyLimitActionProcessPartial {
-			writingBytes = tx.ResponseBodyLimit - tx.responseBodyBuffer.length
+			writingBytes = remainingBodyBytes(tx.ResponseBodyLimit, tx.responseBodyBuffer.length)
 			runProcessResponseBody = true
 		}
 	}
@@ -1275,12 +1284,12 @@ func (tx *Transaction) ReadResponseBodyFrom(r io.Reader) (*types.Interruption, i
 			}
 
 			if tx.WAF.ResponseBodyLimitAction == types.BodyLimitActionProcessPartial {
-				writingBytes = tx.ResponseBodyLimit - tx.responseBodyBuffer.length
+				writingBytes = remainingBodyBytes(tx.ResponseBodyLimit, tx.responseBodyBuffer.length)
 				runProcessResponseBody = true
 			}
 		}
 	} else {
-		writingBytes = tx.ResponseBodyLimit - tx.responseBodyBuffer.length
+		writingBytes = remainingBodyBytes(tx.ResponseBodyLimit, tx.responseBodyBuffer.length)
 	}
 
 	w, err := io.CopyN(tx.responseBodyBuffer, r, writingBytes)
